@@ -958,6 +958,12 @@ func runCall(prog *idl.Program, svc *idl.Service, mi methodInfo, gm reflect.Valu
 	var argTrees []string
 	for i, a := range m.Args {
 		av := prog.GenValue(rng, mi.file, a.Type, 1)
+		if a.Default != nil && rng.Intn(3) == 0 {
+			// the caller passes exactly the declared default of the argument
+			if d := prog.AVFromLiteral(mi.file, a.Type, a.Default); d != nil {
+				av = d
+			}
+		}
 		pv := reflect.New(mt.In(i + 1)).Elem()
 		if err := gocodec.FillGo(pv, av); err != nil {
 			addV("C03:client-argument-type", fmt.Sprintf("%s.%s argument %s: %v", svc.Name, m.Name, a.Name, err), wit(nil))
